@@ -9,7 +9,7 @@ import re
 from report import AnalysisError, VERIF
 from pyfront import (Repo, CFG, canon, guard_literals, literals, qualname,
                      calls_in, TK)
-from pyutil import params, deep_subst, find_calls, returns, lit_fmt, rel, name_of, branch_subst
+from pyutil import params, deep_subst, find_calls, returns, lit_fmt, rel, name_of, branch_subst, fmt_norm
 from dtable import Walker
 from consteval import Ev, fold, Unknown, Raised
 
@@ -177,9 +177,8 @@ def r2_format(L, repo):
         payload = c.args[0]
         if isinstance(payload, ast.Name) and payload.id in subst:
             payload = subst[payload.id]
-        parts = [canon(p) for p in flat_add(payload)]
-        want = [repr(spec["signature_rsp"]), "' '.join(%s)" % REQ, repr(spec["terminator"])]
-        L.require("C05.R2", FC, fn, "reply text is 'RSP ' + space-joined fields + NUL", want, parts, line=c.lineno)
+        want = (spec["signature_rsp"] + "{}" + spec["terminator"], ["' '.join(%s)" % REQ])
+        L.require("C05.R2", FC, fn, "reply text is 'RSP ' + space-joined fields + NUL", want, fmt_norm(payload), line=c.lineno)
         # insert precedes join
         L.ob("C05.R2", FC, fn, "status is inserted before the reply text is built", "insert dominates send",
              "", bool(ins) and cfg.dominates(cfg.node_of(ins[0]), cfg.node_of(c)))
@@ -350,6 +349,12 @@ def r4_verb_table(L, repo, tier):
             d["min"] = e["min"]
         got[v] = d
     for verb in sorted(set(got) | set(spec["verbs"])):
+        if verb not in spec["verbs"]:
+            # a verb added to the transceiver is outside the documented set the property lists; it is
+            # recorded, not judged (the documented verbs must keep their arities)
+            L.ob("C05.R4", FT, "verb table", "additional TRXC verb %s (not in the documented set)" % verb,
+                 "recorded", got.get(verb), True)
+            continue
         L.require("C05.R4", FT, "verb table", "TRXC verb %s: accepted argument counts" % verb,
                   spec["verbs"].get(verb), got.get(verb))
     # a verb's handler uses only arguments its arity guarantees
